@@ -308,6 +308,7 @@ class C03(Check):
                 loop = ('r', True, dict(status=code, headers=[], cookies=[]), ('t', 'again'))
                 spec = dict(before=[], after=[], errh=[(code, ('c', loop))])
                 req['route'] = ('h', [], ('ret', loop))
+                req.pop('arrive', None)
                 stats['loops1000'] += 1
             try:
                 obs = zoo.watchdog(lambda: run_real(spec, req), 6 if stats.get('hangs', 0) < 3 else 1)
